@@ -446,13 +446,16 @@ func genC33(c *hlib.Ctx) {
 				for n := 1; n <= cnt; n++ {
 					ns = append(ns, n)
 				}
-				if c.Tier == "quick" && len(ns) > 3 { // first, a middle one, last
+				// quick: first, a middle one, last of each kind; thorough: every read of the main
+				// configuration, three of each kind for the other listers / layouts
+				sample := c.Tier == "quick" || !(cf.layout == "full" && cf.lister == "concurrent")
+				if sample && len(ns) > 3 {
 					ns = []int{1, c.R.Range(2, cnt-1), cnt}
 				}
 				sort.Ints(ns)
 				for _, n := range ns {
 					outcomes := []string{"failed"}
-					if k != "listing" && k != "exists-meta" && (c.Tier != "quick" || c.R.Chance(1, 3)) {
+					if k != "listing" && k != "exists-meta" && ((c.Tier != "quick" && (n == 1 || n == cnt || c.R.Chance(1, 4))) || (c.Tier == "quick" && c.R.Chance(1, 3))) {
 						outcomes = append(outcomes, "notfound", "corrupt", "badversion")
 					}
 					for _, o := range outcomes {
